@@ -16,7 +16,9 @@ def one(job):
     if overlay is None:
         return prop, v.kind, v.name, "skipped", why
     try:
-        res = refcheck.compare(Repo("/repo", overlay=overlay), None)
+        # as in a real run, the files the variant touches are among the consulted ones (a data table of a generated module is
+        # not part of the reference: a change there is never "proven equivalent")
+        res = refcheck.compare(Repo("/repo", overlay=overlay), sorted(set(refcheck.reference_overlay()) | set(overlay)))
     except Exception as e:
         return prop, v.kind, v.name, "error", f"{type(e).__name__}: {e}"
     return prop, v.kind, v.name, "equivalent" if res["equivalent"] else "different", "; ".join(res["blocking"][:2])
